@@ -123,6 +123,8 @@ def run(ctx, prog):
         paths = it.run(fn, env, pc)
         label = "visit(%s)" % fn.params[0]["t"].replace("ArduinoJson::detail::", "").replace("ArduinoJson::", "").replace("const ", "").replace(" &", "")
         for path in paths:
+            if path.end == "abort":
+                continue
             n_paths += 1
             calls = [e for e in path.events if e[0] == "call"]
             names = [c[1].split("::")[-1] for c in calls]
@@ -191,7 +193,11 @@ def run(ctx, prog):
         want = {(i, N - 1 - i) for i in range(N // 2)} if N else None
         ctx.ob(rule, "fixEndianness<%s> reverses the bytes" % N, pairs == want, fn.where,
                "swaps %s" % sorted(pairs) if pairs == want else "swaps %s, a byte reversal needs %s" % (sorted(pairs), sorted(want or [])))
-    ctx.floor(rule, "fixEndianness overloads", ns, 3)
+    big_endian = any(f.endswith("LITTLE_ENDIAN=0") for f in prog.flags)
+    if not big_endian:
+        ctx.floor(rule, "fixEndianness overloads", ns, 3)
+    else:
+        ctx.ob(rule, "big-endian target: no byte swapping", ns == 0, "MsgPack/endianness.hpp", "%d swap overload(s)" % ns, nontrivial=False)
 
     # ---------------------------------------------------------------- R-COUNT
     rule = "R-COUNT"
